@@ -12,7 +12,7 @@ IsOther(x) == x \notin {"dest", "under-dest", "dest.tmp"}
 P_Outcome(o) ==
     IF o.kind = "dest" THEN
         /\ (o.expect.result = "rejected" => o.outcome = "rejected")
-        /\ (o.expect.result = "written" => (o.outcome = "written" /\ o.destOK))
+        /\ (o.expect.result = "written" => ((o.outcome = "written" /\ o.destOK) \/ (o.fault = "cut" /\ o.outcome = "cut")))
     ELSE
         /\ (o.expect.member = "extract" => o.outcome = "written")
         /\ (o.expect.member = "abort" => o.outcome \in {"aborted", "error", "rejected"})
@@ -26,7 +26,10 @@ P_DirKept(o) == o.deletedDirs = <<>>
 \* an existing file is replaced only when --output-file names it or the directory containing it
 P_ReplaceOnlyIfNamed(o) == o.replacedFiles # <<>> => (o.case.out \in {"file", "dir"} /\ o.expect.result = "written" /\ o.expect.replaces)
 \* a rejected transfer changes nothing; a completed one leaves no temporary file
-P_NoLeftovers(o) == (o.outcome = "rejected" => o.changed = <<>>) /\ (o.outcome = "written" => ~o.tmpLeft)
+\* (a transfer cut part way leaves at most the temporary file of a file transfer behind, nothing under the final name; the
+\*  old file that --output-file told it to replace may already be gone)
+P_NoLeftovers(o) == /\ (o.outcome = "rejected" => o.changed = <<>>) /\ (o.outcome = "written" => ~o.tmpLeft)
+                    /\ (o.outcome = "cut" => \A x \in ToSet(o.changed) : x = "dest.tmp" \/ (x = "dest" /\ o.expect.replaces))
 
 VARIABLE k
 Init == k = 0
